@@ -140,6 +140,12 @@ func checkCase(t reporter, s *caseSpec, tables []ceremony.VerifC17Shard) {
 		outs = append(outs, &o)
 	}
 
+	// (viii) a node that also hears gossiped transactions which are not in its blocks
+	if s.Mempool != nil {
+		o := mempoolVariant(s, ledger, blocks1)
+		outs = append(outs, &o)
+	}
+
 	var diffs []string
 	for _, o := range outs[1:] {
 		if d := difference(s, &first, o); d != "" {
@@ -157,6 +163,9 @@ func checkCase(t reporter, s *caseSpec, tables []ceremony.VerifC17Shard) {
 	s.record(&first, tables)
 	if s.Reset != nil {
 		s.recordReset(blocks1)
+	}
+	if s.Mempool != nil {
+		s.recordMempool()
 	}
 }
 
@@ -739,6 +748,7 @@ func TestEpochReproducible(t *testing.T) {
 		s.Msgs = buildMessages(s, tables, parts)
 		drawArrival(t, s)
 		drawReset(t, s, tables)
+		drawMempool(t, s, tables)
 		checkCase(t, s, tables)
 	})
 }
